@@ -453,6 +453,8 @@ Proof.
   - intros. now apply resolver_used_only_at_host.
 Qed.
 
+Definition addr_is_v4 (ip : ipraw) : bool := match to4 ip with Some _ => true | None => false end.
+
 (* ================================================================ Go's net package, assumed *)
 Section GoNet.
   Variable parse_ip : bytes -> option ipraw.
@@ -462,53 +464,75 @@ Section GoNet.
   (* G1: a string that splits into host and port is not itself an IP literal *)
   Hypothesis parse_ip_not_hostport : forall s, split_host_port s <> None -> parse_ip s = None.
   (* G2: IP.String of a real address uses only hex digits, ':' and '.' — in particular no brackets *)
-  Hypothesis ip_str_no_brackets : forall a, valid_ip a = true -> no_brackets (ip_str a) = true.
+  Hypothesis ip_str_no_brackets : forall a, valid_ip a = true -> wf_bytes a = true -> no_brackets (ip_str a) = true.
   (* G5: IP.String prints the To4 form when there is one *)
-  Hypothesis ip_str_norm : forall a a', norm a = norm a' -> ip_str a = ip_str a'.
+  Hypothesis ip_str_norm : forall a a', valid_ip a = true -> valid_ip a' = true -> norm a = norm a' -> ip_str a = ip_str a'.
 
   (* the literal law for a resolver: ResolveIPAddr of the text of (a, z) gives that address back
      (possibly in the other raw form), whatever the state of the name system *)
   Definition literal_law (resolve : bytes -> option (ipraw * bytes)) : Prop :=
-    forall a z, valid_ip a = true -> no_brackets z = true ->
+    forall a z, valid_ip a = true -> wf_bytes a = true -> (addr_is_v4 a = true -> z = []) -> no_brackets z = true ->
       exists a', resolve (ip_text ip_str a z) = Some (a', z) /\ norm a' = norm a /\ valid_ip a' = true.
+  (* what a resolver returns is made of bytes, and an IPv4 address carries no zone *)
+  Definition resolver_wf (resolve : bytes -> option (ipraw * bytes)) : Prop :=
+    forall h a z, resolve h = Some (a, z) -> wf_bytes a = true /\ (addr_is_v4 a = true -> z = []).
   (* G3: the zone returned for a host is a piece of that host *)
   Definition zone_law (resolve : bytes -> option (ipraw * bytes)) : Prop :=
     forall h a z, resolve h = Some (a, z) -> no_brackets h = true -> no_brackets z = true.
 
   Lemma ip_text_no_brackets a z :
-    valid_ip a = true -> no_brackets z = true -> no_brackets (ip_text ip_str a z) = true.
+    valid_ip a = true -> wf_bytes a = true -> no_brackets z = true -> no_brackets (ip_text ip_str a z) = true.
   Proof.
-    intros Ha Hz. unfold ip_text, with_zone. destruct z as [|c z]; [now apply ip_str_no_brackets|].
-    rewrite no_brackets_app, (ip_str_no_brackets _ Ha).
+    intros Ha Hw Hz. unfold ip_text, with_zone. destruct z as [|c z]; [now apply ip_str_no_brackets|].
+    rewrite no_brackets_app, (ip_str_no_brackets _ Ha Hw).
     change (c_pct :: c :: z) with ([c_pct] ++ c :: z). rewrite no_brackets_app, Hz. reflexivity.
   Qed.
 
-  Lemma ip_text_norm a a' z : norm a = norm a' -> ip_text ip_str a z = ip_text ip_str a' z.
-  Proof. intro H. unfold ip_text. now rewrite (ip_str_norm _ _ H). Qed.
+  Lemma ip_text_norm a a' z : valid_ip a = true -> valid_ip a' = true -> norm a = norm a' -> ip_text ip_str a z = ip_text ip_str a' z.
+  Proof. intros Hv Hv' H. unfold ip_text. now rewrite (ip_str_norm _ _ Hv Hv' H). Qed.
 
   (* a well-formed, permitted IP:port in canonical form is accepted unchanged *)
   Lemma permitted_literal_unchanged resolve pol a z port :
     literal_law resolve ->
-    valid_ip a = true -> no_brackets z = true -> port_ok port = true ->
+    valid_ip a = true -> wf_bytes a = true -> (addr_is_v4 a = true -> z = []) -> no_brackets z = true -> port_ok port = true ->
     blocked pol a = false ->
     dom_blocked re_match pol (ip_text ip_str a z) = false ->
     let s := join_host_port (ip_text ip_str a z) port in
     fst (parse_or_resolve parse_ip resolve ip_str re_match pol s) = Some s.
   Proof.
-    intros Hlit Ha Hz Hp Hb Hd s.
+    intros Hlit Ha Hw H4 Hz Hp Hb Hd s.
     assert (Hs : split_host_port s = Some (ip_text ip_str a z, port)).
     { apply split_join; [now apply ip_text_no_brackets | now apply port_ok_plain]. }
-    destruct (Hlit a z Ha Hz) as (a' & Hr & Hn & Hv').
+    destruct (Hlit a z Ha Hw H4 Hz) as (a' & Hr & Hn & Hv').
     assert (Hpi : parse_ip s = None) by (apply parse_ip_not_hostport; congruence).
     rewrite (accepted_when_permitted parse_ip resolve ip_str re_match pol s _ _ a' z Hpi Hs Hp Hd Hr Hv').
-    - cbn [fst]. unfold s. now rewrite (ip_text_norm a' a z Hn).
+    - cbn [fst]. unfold s. now rewrite (ip_text_norm a' a z Hv' Ha Hn).
+    - now rewrite (blocked_norm pol a' a Hn).
+  Qed.
+
+  (* the same with the only use of G1 made explicit: the joined text is not itself an IP literal *)
+  Lemma permitted_literal_unchanged_local resolve pol a z port :
+    literal_law resolve ->
+    valid_ip a = true -> wf_bytes a = true -> (addr_is_v4 a = true -> z = []) -> no_brackets z = true -> port_ok port = true ->
+    blocked pol a = false ->
+    dom_blocked re_match pol (ip_text ip_str a z) = false ->
+    let s := join_host_port (ip_text ip_str a z) port in
+    parse_ip s = None ->
+    fst (parse_or_resolve parse_ip resolve ip_str re_match pol s) = Some s.
+  Proof.
+    intros Hlit Ha Hw H4 Hz Hp Hb Hd s Hpi.
+    assert (Hs : split_host_port s = Some (ip_text ip_str a z, port)).
+    { apply split_join; [now apply ip_text_no_brackets | now apply port_ok_plain]. }
+    destruct (Hlit a z Ha Hw H4 Hz) as (a' & Hr & Hn & Hv').
+    rewrite (accepted_when_permitted parse_ip resolve ip_str re_match pol s _ _ a' z Hpi Hs Hp Hd Hr Hv').
+    - cbn [fst]. unfold s. now rewrite (ip_text_norm a' a z Hv' Ha Hn).
     - now rewrite (blocked_norm pol a' a Hn).
   Qed.
 
   (* the address that was checked is the address that is dialled: whatever the name system says
      when the connection is made, the returned literal leads to the checked address *)
   Lemma dial_target_is_checked resolve resolve_later pol s out lk :
-    zone_law resolve -> literal_law resolve_later ->
+    zone_law resolve -> resolver_wf resolve -> literal_law resolve_later ->
     parse_or_resolve parse_ip resolve ip_str re_match pol s = (Some out, lk) ->
     exists host port a z a',
       split_host_port s = Some (host, port) /\ resolve host = Some (a, z) /\
@@ -516,12 +540,13 @@ Section GoNet.
       dial_target resolve_later out = Some (a', z, port) /\
       norm a' = norm a /\ blocked pol a' = false.
   Proof.
-    intros Hz Hlit H.
+    intros Hz Hwf Hlit H.
     destruct (accepted_is_checked_literal _ _ _ _ _ _ _ _ H)
       as (host & port & a & z & _ & Hs & Hp & _ & Hr & Hv & Hb & -> & _).
     pose proof (split_host_no_brackets _ _ _ Hs) as Hh.
     pose proof (Hz _ _ _ Hr Hh) as Hzz.
-    destruct (Hlit a z Hv Hzz) as (a' & Hr' & Hn & Hv').
+    destruct (Hwf _ _ _ Hr) as (Hw & H4).
+    destruct (Hlit a z Hv Hw H4 Hzz) as (a' & Hr' & Hn & Hv').
     exists host, port, a, z, a'. repeat split; auto.
     - unfold dial_target. rewrite split_join.
       + now rewrite Hr'.
@@ -534,9 +559,9 @@ End GoNet.
 (* the same with the quantifiers in the order of the statement in Props.v *)
 Lemma dial_target_is_checked_q :
   forall ip_str : ipraw -> bytes,
-    (forall a, valid_ip a = true -> no_brackets (ip_str a) = true) ->
+    (forall a, valid_ip a = true -> wf_bytes a = true -> no_brackets (ip_str a) = true) ->
     forall parse_ip re_match resolve resolve_later pol s out lk,
-      zone_law resolve -> literal_law ip_str resolve_later ->
+      zone_law resolve -> resolver_wf resolve -> literal_law ip_str resolve_later ->
       parse_or_resolve parse_ip resolve ip_str re_match pol s = (Some out, lk) ->
       exists host port a z a',
         split_host_port s = Some (host, port) /\ resolve host = Some (a, z) /\
